@@ -6,6 +6,9 @@ ALL = ['C%02d' % i for i in range(1, 21)]
 
 # property -> (level category, technique, level text, level note)
 CLAIMED = {
+ 'C01': ('exploration', 'runtime monitoring: seeded-scheduler TLS sessions under ASan/UBSan with stream, parameter-agreement and independent record-decoder oracles; OpenSSL as interop peer',
+         'Executes real client/server engines (ASan+UBSan build of /repo) over every (suite, version) pair with sampled buffer layouts/sizes, transport chunkings, write sizes and payload lengths; every session is judged by a position-coded stream oracle, parameter/export agreement, an independent OpenSSL-EVP record decoder keyed by an independently derived key block, and the C06 coherence monitor after every call; OpenSSL libssl plays each role for the 58 (suite,version) pairs it implements. Held-on-what-was-observed, not a proof.',
+         'Trusts OpenSSL 3.0 (EVP, TLS1-PRF, libssl) as independent reference; x86-64 host build with ESP8266-like config flags; products of the configuration space are sampled (seeded), 3DES and static-ECDH suites have no independent TLS peer here (covered BearSSL<->BearSSL plus the independent record decoder).'),
 }
 
 ENGINES = []
